@@ -116,6 +116,7 @@ type VC struct {
 	boxed      map[string]Val    // interface term -> boxed value
 	entryVars  map[string]Val    // parameters of the function under verification (entry values)
 	noInst     bool              // render queries without engine-side quantifier instances
+	bridged    map[string]bool   // bit-vector constants that came from an integer (int2bv)
 }
 
 func newVC(eng *Engine, name string, c *Contract) *VC {
